@@ -552,6 +552,9 @@ def _run(ctx, quick, broken, exes, driver, tmp, gen_info, only_replay):
     first = [i for i in range(len(jobs)) if jobs[i][1].sched == "never"]
     rest = [i for i in range(len(jobs)) if jobs[i][1].sched != "never"]
     rest.sort(key=lambda i: (0 if (jobs[i][1].sched == "always" or jobs[i][1].sched.startswith("u")) else 1, i))
+    for i in first:
+        if not jobs[i][0].startswith("suite:"):
+            jobs[i][1].timeout = min(jobs[i][1].timeout, 120)     # reference runs of scenarios / generated programs take < 1 s of CPU
     with cf.ThreadPoolExecutor(int(os.environ.get("VERIF_JOBS", "16"))) as ex:
         futs = {ex.submit(run_job, exes, jobs[i][1], tmp): i for i in first}
         for f in cf.as_completed(futs):
@@ -560,10 +563,13 @@ def _run(ctx, quick, broken, exes, driver, tmp, gen_info, only_replay):
         for i in first:
             if results[i]["rc"] is not None:
                 ref_secs[jobs[i][0]] = max(ref_secs.get(jobs[i][0], 0.0), getattr(jobs[i][1], "secs", 0.0))
+        ref_hung = set(jobs[i][0] for i in first if results[i]["rc"] is None and not jobs[i][0].startswith("suite:"))
         for i in rest:
             g, j = jobs[i]
             j.fixed_timeout = j.timeout
-            if g in ref_secs:
+            if g in ref_hung and g not in ref_secs:
+                j.timeout = min(j.timeout, 120)      # even the reference run did not finish: same budget as it had
+            elif g in ref_secs:
                 j.timeout = int(min(j.timeout, max(60 if not g.startswith("suite:") else 180, 40 * ref_secs[g])))
         futs = {ex.submit(run_job, exes, jobs[i][1], tmp): i for i in rest}
         for f in cf.as_completed(futs):
